@@ -209,6 +209,14 @@ class C13(Prop):
                   "\u212a9", "a\u212a", "\u212a", "\u212aeras", "a.\u212a.b", "\u017fetuptools", "p\u0131p", "\u0130x", "x\u0130"]:
             for law in ("validate_iff_core_metadata_name", "normalized_iff_valid_fixed_point", "canon_is_fold"):
                 yield (law, {"s": s})
+        # U+03A3: str.lower() chooses the final or the medial sigma by looking at the neighbours, skipping case-ignorable
+        # characters ('.' is one, '-' and '_' are not) — so *when* the separators are folded relative to lower() shows
+        # (laws only: the character is outside the Lean model of str.lower, see `partial`)
+        for pre in ["\u0391", "a", "A", "1", ""]:
+            for run in [".", "-", "_", "..", ".-", "-.", "._.", ""]:
+                for post in ["\u0392", "b", "B", "1", ""]:
+                    yield ("canon_is_fold", {"s": pre + "\u03a3" + run + post})
+                    yield ("canon_is_fold", {"s": pre + run + "\u03a3" + post})
         ex = self._exhaustive(rng, 4)
         k = 0
         while True:
